@@ -110,6 +110,7 @@ func RunConcurrentQueue(c QCfg, events int) *core.Trace {
 
 // CheckC13: concurrent producer and consumer.
 func CheckC13(r *core.Run) {
+	defer explorePQ(r)()
 	r.Rule = "one goroutine drives the Writer (Write/Next/Flush with random chunking), another the Reader and ACK on the same queue (bounded and unbounded files, so that full-file retries occur); the interleaved execution is recorded in real order (flush/ACK effects are linearised at the store's commit/switched hook) and judged by PQTrace.tla: exact event sequence in order, ACK never beyond what was flushed, callbacks, no panic, no hang (watchdog); distinct = configurations/seeds"
 	r.Assume("data-race freedom is not decided by the specification; the concurrent runs are additionally executed by a race-detector build when a C toolchain for cgo is available (see evidence key race_build)")
 	n := r.Pick(16, 80)
